@@ -931,7 +931,13 @@ def exec_hostile_server(base, case, chooser=None):
             if rec['outcome'].startswith('exc:'):
                 obs.tallies.append('interpretation_only:request_blob_raised_' + rec['outcome'][4:])
             if i < k - 1 and not (rec['outcome'] == 'ok' and rec['verified'] and file_state(w.cd, hashes[i]) == blobs[i]):
-                if not obs.timer_devs:
+                if not obs.timer_devs and i == k - 2 and entry['pre']:
+                    # the peer delivered header + genuine blob completely and only then started to send bytes nobody
+                    # asked for: the transfer that was complete must stand (this is what the _write cap is for)
+                    obs.viol.append(({'kind': 'complete-genuine-transfer-spoiled-by-later-excess-bytes', 'entry': case['entry']},
+                                     f"request {i + 1}/{n} was answered completely and correctly, unsolicited bytes "
+                                     f"({case['entry']}) followed, and the request ended {rec['outcome']}, verified={rec['verified']}"))
+                elif not obs.timer_devs:
                     obs.viol.append(({'kind': 'honest-transfer-failed', 'shape': 'plain20', 'outcome': rec['outcome'],
                                       'split': {'scripted_honest_server': True}, 'later_request': i > 0},
                                      f'honest exchange {i + 1} before the hostile position failed: {rec}'))
